@@ -127,6 +127,43 @@ theorem gjk_cast_none_exits {Sx : Type} (hs : LawfulSqrt sq) (ops : SimplexOps K
   intro hc hr
   exact (minkowskiRayCast_good sq hs (fun _ => False) ops supp big dim ray maxToi (fun _ _ h => h.elim) hd hc).2.2.2 hr
 
+/-- **GJK ray cast: the reported hit point is (within `eps_tol` of) a point of the shape**, under an explicit specification
+of the simplex (`SimplexSpec`: the projection is a convex combination of the current vertices; a reduced simplex that still
+has `DIM + 1` vertices contains the origin), for a convex `S` whose support points belong to `S`:
+* exit `projZero` (`|proj| ≤ eps_tol = 10 ε`): some point `q` of `S` has `|q − (origin + dir·toi)|² ≤ eps_tol²`;
+* exit `fullInside`: the point `origin + dir·toi` belongs to `S`.
+With `gjk_cast_lower_bound` (nothing of `S` before `toi`) this is the clause "a reported hit lies on the shape's boundary
+… no point of the ray before toi is inside" up to `10 ε`, for these two exits; the exit `lastChanceHit` is not covered. -/
+theorem gjk_cast_hit_near {Sx : Type} (hs : LawfulSqrt sq) (S : V3 K → Prop) (hconv : ConvexSet S)
+    (ops : SimplexOps K Sx) (supp : V3 K → V3 K) (hin : ∀ d, S (supp d)) (big : K) (dim : Nat)
+    (Pts : Sx → (V3 K → Prop) → Prop) (spec : SimplexSpec ops dim Pts) (ray : Ray3 K) (maxToi : K)
+    (hd : 0 < dotK ray.d ray.d) (toi : K) (n : V3 K) :
+    letI := fieldNum K sq
+    (minkowskiRayCast ops supp big dim ray maxToi).res = some (toi, n) →
+    ((minkowskiRayCast ops supp big dim ray maxToi).exit = .projZero →
+      ∃ q, S q ∧ dotK (vsub q (rayPt sq ray toi)) (vsub q (rayPt sq ray toi)) ≤ gjkEpsTol * gjkEpsTol) ∧
+    ((minkowskiRayCast ops supp big dim ray maxToi).exit = .fullInside → S (rayPt sq ray toi)) := by
+  intro hr
+  have hlen := rayLen_pos sq hs ray.d hd
+  have h := minkowskiRayCast_near sq hs S hconv ops supp hin big dim Pts spec ray maxToi hd toi n hr
+  rw [lin_ray sq ray hlen] at h
+  exact h
+
+/-- non-vacuity of `SimplexSpec`: the one-point "simplex" that keeps only the newest vertex satisfies it (over `ℚ`) -/
+example : SimplexSpec (K := ℚ) (Sx := V3 ℚ)
+    ⟨fun p => p, fun _ p => p, fun s => (s, s), fun s v => vadd s v, fun _ => 0⟩ 3 (fun s T => T s) where
+  mono := fun _ _ _ h hp => h _ hp
+  reset := fun _ _ h => h
+  add := fun _ _ _ _ h => h
+  project := fun _ _ _ h => ⟨h, h⟩
+  translate := fun s v T h => by
+    have : vsub (vadd s v) v = s := by
+      obtain ⟨a, b, c⟩ := s; obtain ⟨d, e, f⟩ := v
+      simp only [vadd, vsub, V3.mk.injEq]; refine ⟨by ring, by ring, by ring⟩
+    show T (vsub (vadd s v) v)
+    rw [this]; exact h
+  full := fun _ _ _ _ h => by simp at h
+
 /-- **Support-map wrapper (`local_ray_intersection_with_support_map_with_params`), direct path** (solid cast, or
 non-solid with a non-zero first time): the reported time is the time of the first GJK cast, hence a lower bound of the
 first hit; the feature is `Unknown`. -/
